@@ -137,7 +137,7 @@ def strategy(tier):
 
 def enumerate_cases(tier):
     out = [{"g": "pinned", "src": p["src"], "dst": p["dst"], "mag": p["mag"], "mag2": {"t": "float", "v": 1.5}} for p in PINNED]
-    out += [{"g": "chain", "n": n} for n in ((30, 200) if tier == "quick" else (30, 200, 399, 400, 700, 1200))]
+    out += [{"g": "chain", "n": n} for n in ((30, 200, 700) if tier == "quick" else (30, 200, 399, 400, 700, 880, 1200))]
     return out
 
 
